@@ -82,7 +82,8 @@ BANNED = re.compile(r"\b(sorry|admit|native_decide|bv_decide|implemented_by|unsa
 
 def strip_comments(src):
     src = re.sub(r"/-.*?-/", "", src, flags=re.S)
-    return re.sub(r"--.*", "", src)
+    src = re.sub(r"--.*", "", src)
+    return re.sub(r'"(?:[^"\\]|\\.)*"', '""', src)
 
 
 def audit_sources():
@@ -99,9 +100,10 @@ def audit_sources():
 def theorems_of(prop):
     """(name, statement) of every theorem in Props/<prop>.lean"""
     path = os.path.join(LEAN, "O2oModel", "Props", prop + ".lean")
-    src = strip_comments(open(path).read())
+    src = re.sub(r"/-.*?-/", "", open(path).read(), flags=re.S)
+    src = re.sub(r"--.*", "", src)
     res = []
-    for m in re.finditer(r"^theorem\s+([A-Za-z0-9_.']+)(.*?):=", src, re.S | re.M):
+    for m in re.finditer(r"^theorem\s+([A-Za-z0-9_.']+)(.*?)(?::=|\n\s*\|)", src, re.S | re.M):
         res.append((m.group(1), re.sub(r"\s+", " ", m.group(2)).strip()))
     return res
 
